@@ -19,6 +19,7 @@ def corpus():
         {"c": "B", "S": ["A", "C"], "wo": [["C", "A", True]], "irv": [["C", ["A"], False], ["C", ["A"], True]]},
         {"c": "B", "S": [], "wo": [], "irv": []},
         {"c": "B", "S": ["A"], "wo": [["A", "B", False], ["A", "B", False]], "irv": [["B", ["A"], True]]},
+        {"c": "12", "S": ["1", "2", "7"], "wo": [["1", "7", True], ["2", "7", False]], "irv": [["7", ["12"], False]]},
     ]
 
 
@@ -55,6 +56,12 @@ def gen(rng, n, tier):
     while count < n:
         nc = rng.choice([3, 4, 4, 5, 5, 6])
         cands = [chr(ord("A") + i) for i in range(nc)]
+        if rng.chance(0.35):
+            # numeric identifiers of mixed width whose concatenations are ambiguous ("1","2","12","21",...),
+            # as in real Dominion candidate ids
+            pool_ids = ["1", "2", "12", "21", "7", "17", "71", "112", "4", "47"]
+            rng.shuffle(pool_ids)
+            cands = pool_ids[:nc]
         c = rng.choice(cands)
         S = [x for x in cands if x != c]
         rng.shuffle(S)
